@@ -18,8 +18,6 @@ violation carrying the deviation id (so that it can be listed as a known finding
 stated instead the deviation is counted as obsolete, anything else is an unexplained violation.
 """
 import json
-import os
-import re
 import sys
 import time
 from concurrent.futures import ThreadPoolExecutor
@@ -142,14 +140,19 @@ def as_list(x):
 
 
 # ------------------------------------------------------------------ projections
+BASE = "world"  # whether the base frame already has an entry in node_data is incidental: not compared
+
+
 def canon_exp(stj):
-    return {"geo": [(e["n"], e["o"]) for e in as_list(stj["geo"])],
-            "nodes": frozenset(as_list(stj["nodes"])),
+    # the order of scene.geometry is not part of the stated behaviour: compared as a mapping
+    return {"geo": frozenset((e["n"], e["o"]) for e in as_list(stj["geo"])),
+            "ngeo": len(as_list(stj["geo"])),
+            "nodes": frozenset(as_list(stj["nodes"])) - {BASE},
             "par": frozenset((e["v"], e["u"], e["x"]) for e in as_list(stj["par"])),
             "ng": frozenset((e["v"], e["g"]) for e in as_list(stj["ng"]))}
 
 
-EMPTY = {"geo": [], "nodes": frozenset(), "par": frozenset(), "ng": frozenset()}
+EMPTY = {"geo": frozenset(), "ngeo": 0, "nodes": frozenset(), "par": frozenset(), "ng": frozenset()}
 
 
 class Replay:
@@ -194,8 +197,9 @@ class Replay:
                 if x is None:
                     x = "bad-matrix"
             par.add((self.tok(v), self.tok(u), x))
-        return {"geo": [(self.tok(k), self.objkey(o, by_content)) for k, o in s.geometry.items()],
-                "nodes": frozenset(self.tok(n) for n in tf.node_data.keys()),
+        return {"geo": frozenset((self.tok(k), self.objkey(o, by_content)) for k, o in s.geometry.items()),
+                "ngeo": len(s.geometry),
+                "nodes": frozenset(self.tok(n) for n in tf.node_data.keys()) - {BASE},
                 "par": frozenset(par),
                 "ng": frozenset((self.tok(n), self.tok(d["geometry"])) for n, d in tf.node_data.items() if "geometry" in d)}
 
@@ -204,24 +208,23 @@ class Replay:
         for k in ("geo", "nodes", "par", "ng"):
             if got[k] != exp[k]:
                 g, e = got[k], exp[k]
-                if k != "geo":
-                    g, e = sorted(map(str, g - e)), sorted(map(str, e - g))
-                return k, {"component": k, "got_only": g, "exp_only": e}
+                return k, {"component": k, "got_only": sorted(map(str, g - e)), "exp_only": sorted(map(str, e - g))}
+        if got["ngeo"] != exp["ngeo"]:
+            return "geo", {"component": "len(geometry)", "got": got["ngeo"], "exp": exp["ngeo"]}
         return None, None
 
     def learn_random(self, exp):
-        """add_geometry(Scene) renames taken node names to name + 12 hex digits: bind them to the tokens."""
-        real_nodes = list(self.scene.graph.transforms.node_data.keys())
-        for t in sorted(exp["nodes"]):
-            if "#" not in t or t in self.t2r:
-                continue
+        """add_geometry(Scene) gives taken node names a fresh name (today: name + 12 random hex digits).
+        Bind each new real name to its token: the new name extends the old one; longest names first."""
+        real_nodes = [n for n in self.scene.graph.transforms.node_data.keys()
+                      if isinstance(n, str) and n not in self.r2t and n not in exp["nodes"]]
+        for t in sorted((t for t in exp["nodes"] if "#" in t and t not in self.t2r), key=lambda t: -len(t.split("#")[0])):
             base = t.split("#")[0]
-            pat = re.compile(re.escape(base) + "[0-9a-f]{12}$")
-            c = [n for n in real_nodes if n not in self.r2t and isinstance(n, str) and pat.match(n)
-                 and n not in exp["nodes"]]
+            c = [n for n in real_nodes if n.startswith(base) and len(n) > len(base)]
             if len(c) == 1:
                 self.t2r[t] = c[0]
                 self.r2t[c[0]] = t
+                real_nodes.remove(c[0])
 
     # ---- reads
     def read_graph(self, e):
@@ -294,7 +297,8 @@ class Replay:
         if not (want_geo <= got_geo <= allowed):
             return "Subscene(geometry)", {"v": e["v"], "got": sorted(got_geo), "exp": sorted(want_geo)}
         for k, o in sub.geometry.items():
-            if self.scene.geometry.get(k) is not o:
+            orig = self.scene.geometry.get(k)
+            if orig is not o and (orig is None or orig.__hash__() != o.__hash__()):
                 return "Subscene(geometry object)", {"v": e["v"], "name": k}
         return None, None
 
@@ -402,7 +406,6 @@ class Replay:
         return c, d, cur
 
 
-_OTHER_OPS = {}
 
 
 def build_other(trimesh, k):
@@ -593,7 +596,7 @@ def main(argv):
 
     def run_mc(job):
         k, (name, c, workers) = job
-        return "mc", name, tlc.must(tlc.run(tlc.prepare(f"x03/mc{k}"), MODULE, c, workers=workers, timeout=3000), name)
+        return "mc", name, tlc.must(tlc.run(tlc.prepare(f"x03/mc{k}"), MODULE, c, workers=workers, timeout=9000), name)
 
     def run_self(job):
         flag, clause, rr = selftest(job)
@@ -604,10 +607,10 @@ def main(argv):
         dd = tlc.prepare(f"x03/emit{k}")
         c = cfg(emitting=True, view=False, check=["EmitLeaf"], flags=asb, **kw)
         if nsim is None:
-            rr = tlc.must(tlc.run(dd, MODULE, c, workers=1, timeout=3000), name)
+            rr = tlc.must(tlc.run(dd, MODULE, c, workers=1, timeout=9000), name)
         else:
             rr = tlc.run(dd, MODULE, c, workers=1, simulate=f"num={nsim}", depth=kw["depth"] + 1,
-                         seed=seed() * 101 + 7 + k, timeout=3000)
+                         seed=seed() * 101 + 7 + k, timeout=9000)
             if rr.violated or (rr.error and rr.error != "timeout"):
                 raise MachineryError(f"{name} failed: {rr.violated} {rr.error}\n" + rr.stdout[-800:])
         return "emit", name, rr
@@ -679,7 +682,7 @@ def main(argv):
         "names offered by the caller: 'a', 'n' (plus 'b' in the dict); node placements are x-translations",
         "parent_node_name only names existing nodes; explicit node names never close a cycle and never name the base frame",
         "base frame 'world' is never removed; geometry names handed to graph.update exist",
-        "random node names from append_scenes are matched by pattern (<name><12 hex digits>)",
+        "the fresh node names append_scenes hands out are recognised as extensions of the name they replace",
         "Scene.deduplicated() does not exist in this version of trimesh: not exercised",
     ])
 
